@@ -46,6 +46,21 @@ verus! {
                 <ArtifactMap as vstd::std_specs::cmp::PartialEqSpec>::obeys_eq_spec(),
                 forall|a: ArtifactMap, b: ArtifactMap| #[trigger] vstd::std_specs::cmp::PartialEqSpec::eq_spec(&a, &b) == (a == b),
                 forall|j: int| 0 <= j < it2.index() ==> (#[trigger] it2.seq()[j]).materials == reference_link.materials && it2.seq()[j].products == reference_link.products,
+                step.threshold >= 2,
+                exists|i: int| 0 <= i < layout.steps@.len() && #[trigger] layout.steps@[i] == *step,
+                link_files@.contains_key(step.name) && link_files@[step.name]@ == key_link_per_step@,
+                key_link_per_step@.contains_key(*reference_keyid) && key_link_per_step@[*reference_keyid] == *reference_link,
+                forall|j: int| 0 <= j < it2.seq().len() ==> key_link_per_step@.values().contains(*#[trigger] it2.seq()[j]),
+//@before /return Err\(Error::VerificationFailure\(format!\(/ nth=2
+                proof {
+                    let m = key_link_per_step@;
+                    assert(m.values().contains(*link));
+                    let a = choose|a: KeyId| m.contains_key(a) && m[a] == *link;
+                    let b = *reference_keyid;
+                    assert(m.contains_key(a) && m.contains_key(b));
+                    assert(m[a].materials != m[b].materials || m[a].products != m[b].products);
+                    assert(!step_agrees(*step, link_files@));
+                }
 //@after_loop 2
             proof {
                 let m = key_link_per_step@;
